@@ -104,6 +104,16 @@ def check_ptr(p: Any, obs: Dict[str, Any], probe_t: Any, where: str) -> List[str
 
         if len({outcome(x) for x in (p, q1, q2)}) != 1:
             bad.append(f"{where}:equal-pointers-resolve-differently")
+        # the documented index token "#k": it gives k exactly where the plain token k gives an element
+        if toks and toks[-1][:1] == "#" and toks[-1][1:].isdigit() and toks[-1][1:].isascii() and (toks[-1] == "#0" or toks[-1][1] != "0"):
+            try:
+                parent_v = JSONPointer.from_parts(toks[:-1]).resolve(doc0)
+            except Exception:  # noqa: BLE001
+                parent_v = None
+            if isinstance(parent_v, list):
+                plain = JSONPointer.from_parts(toks[:-1] + [toks[-1][1:]]).exists(doc0)
+                if p.exists(doc0) != plain:
+                    bad.append(f"{where}:index-token-exists-where-the-plain-index-does-not")
     except BaseException as e:  # noqa: BLE001
         bad.append(f"{where}:construct-raised-{type(e).__name__}")
     if not any(is_ext(t) for t in toks):
@@ -129,6 +139,12 @@ def replay(args: Tuple[Dict[str, Any], Any]) -> List[Tuple[str, Dict[str, Any], 
     bad: List[str] = []
     text0 = untext(rec["start"]["text"])
     try:
+        if "%" in text0:
+            # the same text read once with URI decoding asked for: what it means without that option does not depend on it
+            try:
+                JSONPointer(text0, uri_decode=True)
+            except Exception:  # noqa: BLE001
+                pass
         p = JSONPointer(text0)
     except BaseException as e:  # noqa: BLE001
         bad.append(f"start:construct-raised-{type(e).__name__}")
